@@ -240,7 +240,7 @@ def run(ctx):
                 ctx.mismatch("model Ds.Prov container disagrees with implementation (implementation agrees with the list)", case,
                              impl=res["trace"][-1] if res["trace"] else None, model=(errs or outs[-1:]), failing_input=False,
                              broken="corr:Ds.Prov.setItem/insert/delItem / theorem C19_step")
-        if ctx.elapsed() > (100 if ctx.tier == "quick" else 900):
+        if ctx.elapsed() > (400 if ctx.tier == "quick" else 1800):
             break
     return ctx.finish("proof", "Theorems C19_* state that every modelled container operation refines the same operation on a plain list of "
                       "formulas (abstraction = strip padding) for every history; this run executed random histories on the real Provenance, "
